@@ -266,11 +266,11 @@ func c03R1(c *Ctx) {
 	}
 	// who may call closeLocked
 	allowed := map[string]bool{
-		"transport.(*Server).handleSessionMessage":     true,
-		"transport.(*Client).handleSessionMessage":     true,
+		"transport.(*Server).handleSessionMessage":      true,
+		"transport.(*Client).handleSessionMessage":      true,
 		"transport.(*SessionState).handleControlLocked": true,
-		"transport.(*Handle).Close":                    true,
-		"transport.(*Server).finishHandshake":          true,
+		"transport.(*Handle).Close":                     true,
+		"transport.(*Server).finishHandshake":           true,
 	}
 	ncl := 0
 	for _, f := range P.ModuleFuncs() {
